@@ -375,3 +375,73 @@ Proof.
   - eapply update_first_col_core; try eassumption. intros c c' E. unfold col_core in *. cbn. congruence.
   - rewrite Hat, Hp, app_nil_r. apply Permutation_map. exact R3.
 Qed.
+
+(* ---------- one step of the invariant, any supported kind ---------- *)
+Lemma simp_step_rel : forall P s v a s1 v1,
+  pend_rel P s v -> nodup_str (map t_name v) = true -> simp_kind_ok P v a = true ->
+  apply_action s a = Ok s1 -> apply_action v (ghost_action a) = Ok v1 ->
+  pend_rel (pend_step s P a) s1 v1.
+Proof.
+  intros P s v a s1 v1 H Hnd Hk As Av.
+  destruct a as [t cols ks|t|t col fw|t c1 c2|t c|t c ty fw|t c nl fw|t c nd|t c nc|t k|t k|f2 t2|sql]; cbn [ghost_action] in Av; cbn [simp_kind_ok] in Hk.
+  - cbn [pend_step]. eapply simp_create_table; try eassumption. destruct (pend_of P t); [reflexivity|discriminate].
+  - cbn [pend_step]. eapply simp_delete_table; eassumption.
+  - eapply simp_establish; try eassumption.
+    unfold dec_b in Hk. destruct (list_eq_dec constraint_eq_dec _ _) as [E|]; [|discriminate].
+    unfold step in E. cbn [ghost_action] in E. rewrite Av in E. exact E.
+  - cbn [pend_step]. eapply simp_rename_column; try eassumption. destruct (pend_of P t); [reflexivity|discriminate].
+  - cbn [pend_step]. eapply simp_delete_column; try eassumption. destruct (pend_of P t); [reflexivity|discriminate].
+  - cbn [pend_step]. eapply simp_modify; try eassumption. discriminate.
+  - cbn [pend_step]. eapply simp_modify; try eassumption. discriminate.
+  - cbn [pend_step]. eapply simp_modify; try eassumption. discriminate.
+  - cbn [pend_step]. eapply simp_modify; try eassumption. discriminate.
+  - eapply simp_add_constraint; try eassumption. apply Bool.negb_true_iff. exact Hk.
+  - cbn [pend_step]. eapply simp_remove_constraint; try eassumption. destruct (pend_of P t); [reflexivity|discriminate].
+  - discriminate.
+  - cbn [pend_step]. eapply simp_raw; eassumption.
+Qed.
+
+(* ---------- the plan theorem ---------- *)
+Theorem SimP_plan_gen : forall acts P v s s',
+  pend_rel P s v -> simp_plan_steps P v s acts = true -> apply_all s acts = Ok s' ->
+  exists L v', gen_plan s acts = Ok L /\ apply_all v (ghost_plan acts) = Ok v' /\
+               run (catalog_of v) (List.concat L) = RunOk (catalog_of v') /\ pend_rel (pend_at s P acts) s' v'.
+Proof.
+  induction acts as [|a r IH]; intros P v s s' H Hs Ha.
+  - cbn in Ha. inversion Ha; subst. exists [], v. repeat split; try reflexivity. exact H.
+  - cbn [simp_plan_steps] in Hs. apply Bool.andb_true_iff in Hs. destruct Hs as [Hstep Hr].
+    unfold simp_step_ok in Hstep.
+    apply Bool.andb_true_iff in Hstep; destruct Hstep as [Hstep Hap].
+    apply Bool.andb_true_iff in Hstep; destruct Hstep as [Hstep Hk].
+    apply Bool.andb_true_iff in Hstep; destruct Hstep as [Hnd Hsim].
+    cbn [apply_all] in Ha. destruct (apply_action s a) as [s1|e] eqn:As; [|discriminate].
+    destruct (apply_action v (ghost_action a)) as [v1|e] eqn:Av; [|discriminate].
+    pose proof (simp_step_rel P s v a s1 v1 H Hnd Hk As Av) as H1.
+    assert (Ss : step s a = s1) by (unfold step; rewrite As; reflexivity).
+    assert (Sv : step v (ghost_action a) = v1) by (unfold step; rewrite Av; reflexivity).
+    rewrite Ss, Sv in Hr.
+    destruct (IH _ v1 s1 s' H1 Hr Ha) as [L [v' [GP [AV [RP RelP]]]]].
+    destruct (sim_proved v (ghost_action a) Hsim v1 Av (pending_constraints a r)) as [st [G R]].
+    exists (st :: L), v'. repeat split.
+    + cbn [gen_plan]. rewrite <- (gen_core_ext v s (pending_constraints a r) (pending_constraints a r) a (pend_rel_core P s v H)).
+      rewrite <- (gen_ghost_action v (pending_constraints a r) a). rewrite G. rewrite As. rewrite GP. reflexivity.
+    + cbn [ghost_plan map apply_all]. rewrite Av. exact AV.
+    + cbn [List.concat]. eapply run_app_ok; [exact R|exact RP].
+    + cbn [pend_at]. rewrite Ss. exact RelP.
+Qed.
+
+Lemma pend_rel_refl : forall s, pend_rel [] s s.
+Proof.
+  intro s. unfold pend_rel. induction s as [|x r IH]; constructor; [|exact IH].
+  repeat split. cbn [pend_of filter map]. rewrite app_nil_r. apply Permutation_refl.
+Qed.
+
+(* from the believed catalog of the baseline: the real statements run, and the engine ends in the believed catalog of
+   the replayed schema minus what is still pending *)
+Theorem SimP_plan : forall s acts s',
+  simp_plan_steps [] s s acts = true -> apply_all s acts = Ok s' ->
+  exists L c', gen_plan s acts = Ok L /\ run (catalog_of s) (List.concat L) = RunOk c' /\ SimP s' (pend_at s [] acts) c'.
+Proof.
+  intros s acts s' Hs Ha. destruct (SimP_plan_gen acts [] s s s' (pend_rel_refl s) Hs Ha) as [L [v' [G [_ [R Rel]]]]].
+  exists L, (catalog_of v'). repeat split; [exact G|exact R|]. exists v'. split; [reflexivity|exact Rel].
+Qed.
